@@ -22,6 +22,14 @@ var opts = gen.RichOpts{Malformed: true, Oversized: true, Copy: true, Auth: true
 func genCase(t *rapid.T) Case {
 	c := Case{History: gen.Rich(t, opts)}
 	c.Stepwise = rapid.Bool().Draw(t, "stepwise")
+	if rapid.IntRange(0, 3).Draw(t, "describe-again") == 0 {
+		// a named statement with columns, parsed once and described two or three times (and its portal too)
+		st := script.Stmt{Cols: gen.Cols(rapid.IntRange(1, 4).Draw(t, "dd-ncols"), gen.SimpleTypes).Draw(t, "dd-cols"), Params: []uint32{23, 25}, Ops: []script.Op{{K: "complete", Tag: "SELECT 0"}}}
+		c.Cfg.Table.Q["described again"] = script.Outcome{Stmts: []script.Stmt{st}}
+		at := rapid.IntRange(0, len(c.Msgs)).Draw(t, "dd-at")
+		blk := []script.CMsg{{K: "S"}, {K: "P", Name: "dd", Query: "described again"}, {K: "D", Kind: 'S', Name: "dd"}, {K: "D", Kind: 'S', Name: "dd"}, {K: "B", Portal: "ddp", Name: "dd"}, {K: "D", Kind: 'P', Portal: "ddp"}, {K: "D", Kind: 'P', Portal: "ddp"}, {K: "S"}, {K: "D", Kind: 'S', Name: "dd"}, {K: "S"}}
+		c.Msgs = append(c.Msgs[:at:at], append(blk, c.Msgs[at:]...)...)
+	}
 	if rapid.IntRange(0, 3).Draw(t, "terminate-last") == 0 {
 		// Terminate right behind the rest (in burst mode: in the same write): everything the server
 		// produced before it closes the connection is still whole messages
